@@ -88,6 +88,15 @@ func writeSpec(dir string, s *Spec) {
 	}
 }
 
+// ReadFile reads a file that must exist.
+func ReadFile(path string) string {
+	b, err := os.ReadFile(path)
+	if err != nil {
+		panic(err)
+	}
+	return string(b)
+}
+
 func readIf(path string) string {
 	b, err := os.ReadFile(path)
 	if err != nil {
@@ -122,6 +131,30 @@ func (w *Workspace) RunFastDir(dir string, imp gotypes.Importer) (res *Result) {
 	res.Base = readIf(filepath.Join(dir, "base.gen.go"))
 	res.Lexer = readIf(filepath.Join(dir, "lexer.gen.go"))
 	res.Parser = readIf(filepath.Join(dir, "parser.gen.go"))
+	return res
+}
+
+// RunLexer runs the pipeline up to EmitLexer (no Go analysis).
+func (w *Workspace) RunLexer(s *Spec) (res *Result) {
+	dir := w.dirFor()
+	writeSpec(dir, s)
+	fset := gotoken.NewFileSet()
+	var diag bytes.Buffer
+	errs := errlogger.New(fset, &diag)
+	res = &Result{Fset: fset, Dir: dir, PkgPath: PkgPath}
+	func() {
+		defer func() {
+			if r := recover(); r != nil {
+				res.Panic = fmt.Sprintf("%v\n%s", r, debug.Stack())
+			}
+		}()
+		res.V = codegen.VerifGenerateLexer(&codegen.Config{Fset: fset, Errs: errs, Dir: dir})
+		res.OK = res.V.OK
+		res.Stage = res.V.Stage
+	}()
+	res.Diag = diag.String()
+	res.Base = readIf(filepath.Join(dir, "base.gen.go"))
+	res.Lexer = readIf(filepath.Join(dir, "lexer.gen.go"))
 	return res
 }
 
